@@ -184,9 +184,26 @@ fn h_zigzag<S: Src>(s: &mut S) {
     s.reach();
 }
 
+// A-F32-CONV (Verus unit rle): the conversions and comparisons the unit abstracts by f32_of / f32_nz, on the real operations, every i16
+fn h_f32_conv<S: Src>(s: &mut S) {
+    let v = s.i16();
+    let x: f32 = v.into();
+    let y: f32 = v.into();
+    chk!(s, x.to_bits() == y.to_bits(), "rle.f32_conv.function: i16 -> f32 is a function of its argument");
+    chk!(s, (x != 0.0) == (v != 0), "rle.f32_conv.nonzero: the converted value is non-zero exactly for non-zero arguments");
+    chk!(s, (x == 0.0) == !(x != 0.0), "rle.f32_conv.eq_ne: `== 0.0` is the negation of `!= 0.0` on converted values (never NaN)");
+    let z: f32 = 0i16.into();
+    chk!(s, z.to_bits() == 0.0f32.to_bits(), "rle.f32_conv.zero: the literal 0.0f32 is the conversion of 0");
+    s.reach();
+}
+
 #[cfg(kani)]
 mod proofs {
     use super::*;
+    #[kani::proof]
+    fn f32_conv() {
+        h_f32_conv(&mut KSrc)
+    }
     #[kani::proof]
     #[kani::unwind(10)]
     fn single_inter() {
@@ -230,6 +247,7 @@ mod replay {
             "multi3" => h_multi::<RSrc, 3>(r),
             "multi4" => h_multi::<RSrc, 4>(r),
             "zigzag" => h_zigzag(r),
+            "f32_conv" => h_f32_conv(r),
             _ => return false,
         }
         true
